@@ -18,6 +18,12 @@ if-elif chains and keyword arguments never appear in what the rules look at.  Th
 and decode them algebraically (ARANGE(a, b) + k, SIZE(grid points), SETITEM(w, 0, w[0] / 2), ...).  Variables are identified by
 their role (argument position of a public call, loop target that indexes self.direction / self.basis / self.endpoints), never
 by name.
+
+Loops over the axes execute one symbolic iteration; a comprehension over the axes (`zip(self.basis, flags)`, `range(self.rank)`,
+`enumerate(<per-axis list>)`) is the same loop and yields a one-element list.  A conditional expression whose arms are not terms
+(labels, truth values, lists) and an undecided comprehension filter are two-way branches of the enclosing statement (`_Split`);
+a test on a value the current path has already branched on takes the same outcome (`_known`), so a per-axis flag tested in a loop
+and again in a comprehension stays consistent.  list.append / insert / extend / `+=` and starred displays build python lists.
 """
 from __future__ import annotations
 
@@ -27,7 +33,7 @@ import itertools
 import sympy as sp
 
 from ..core import AnchorMissing, Check, Undecided, dotted, kwarg
-from ..terms import Extractor, Opaque, WHERE, _Ret
+from ..terms import Extractor, Guard, Opaque, WHERE, _Ret
 
 LEVEL = "other"
 PO = "polynomial:Polynomial"
@@ -45,6 +51,15 @@ PKG_RECORD = {"chebyshev", "cardinal", "changeBasis", "derivMatrix", "Polynomial
 
 class _Loop:
     """outcome of a `break` / `continue`: ends the single symbolic iteration of the loop body"""
+
+
+class _Split(Exception):
+    """an undecided two-way choice inside an expression (conditional expression with non-term arms, filter of a per-axis comprehension):
+    the enclosing statement is executed once per outcome, exactly like an `if` statement with that test"""
+
+    def __init__(self, test, term):
+        super().__init__("split")
+        self.test, self.term = test, term
 
 
 def _fn(t, f) -> bool:
@@ -87,6 +102,9 @@ class _PolyEx(Extractor):
         self.axis_names: set = set()  # loop targets playing the axis index
         self._k = 0
         self._sigs: dict = {}
+        self._forced: dict = {}      # id(test node) -> outcome chosen for it while a statement is re-executed per outcome (see _Split)
+        self._nosplit = 0            # > 0 while the elements of a concrete multi-element comprehension are evaluated
+        self._guards: list = []      # guards of the path the statement under evaluation lies on
 
     # ---- small helpers
     def fresh(self, what="havoc"):
@@ -164,11 +182,103 @@ class _PolyEx(Extractor):
 
     # ---- statements
     def stmt(self, st, env, guards, depth):
+        prev = self._guards
+        self._guards = guards
+        try:
+            return self._stmt(st, env, guards, depth)
+        except _Split as s:
+            # a conditional expression is a two-way branch: run the statement once with each outcome
+            key = id(s.test)
+            if key in self._forced:
+                raise Undecided("conditional expression: outcome not stable")
+            out = []
+            for pol in (True, False):
+                self._forced[key] = pol
+                try:
+                    out += self.stmt(st, env, guards + [Guard(s.test, pol, s.term)], depth)
+                finally:
+                    self._forced.pop(key, None)
+            return out
+        finally:
+            self._guards = prev
+
+    @staticmethod
+    def _positive(test):
+        """(operand, flipped) of a test with its leading `not`s removed"""
+        flip = False
+        while isinstance(test, ast.UnaryOp) and isinstance(test.op, ast.Not):
+            test, flip = test.operand, not flip
+        return test, flip
+
+    @staticmethod
+    def _known(c, guards):
+        """outcome of the undecided test value c when the current path already branched on the same value (the second loop over the axes asks
+        `i in axis` again; a per-axis flag computed once is tested in a loop and in a comprehension): a value has one truth value per path"""
+        if isinstance(c, sp.Basic):
+            for g in guards:
+                if isinstance(g.term, sp.Basic) and g.term == c:
+                    return g.polarity
+        return None
+
+    def _choice(self, test, env, depth):
+        """outcome of a two-way test inside an expression: decided / already branched on -> bool; otherwise the statement is split on it"""
+        t, flip = self._positive(test)
+        if id(t) in self._forced:
+            return self._forced[id(t)] != flip
+        c = self.cond(t, env, depth)
+        if not isinstance(c, bool):
+            c = self._known(c, self._guards)
+        if isinstance(c, bool):
+            return c != flip
+        if self._nosplit:
+            raise Undecided("undecided choice inside a multi-element comprehension")
+        raise _Split(t, self.cond(t, env, depth))
+
+    LIST_METHODS = ("append", "insert", "extend")
+
+    def _list_method(self, v, env, depth):
+        """the new value of a python-list local after `lst.append(x)` / `lst.insert(k, x)` / `lst.extend(seq)`, else None"""
+        cur = list(env[v.func.value.id])
+        attr = v.func.attr
+
+        def item(a):
+            try:
+                return self.expr(a, env, depth)
+            except Undecided:
+                return self.fresh()
+        if attr == "append" and len(v.args) == 1:
+            return cur + [item(v.args[0])]
+        if attr == "insert" and len(v.args) == 2:
+            k = self._const_index(v.args[0], env)
+            if k is None:
+                return None
+            x = item(v.args[1])
+            k = max(0, len(cur) + k) if k < 0 else min(k, len(cur))
+            return cur[:k] + [x] + cur[k:]
+        if attr == "extend" and len(v.args) == 1:
+            x = item(v.args[0])
+            if isinstance(x, (list, tuple)):
+                return cur + list(x)
+            if isinstance(x, sp.Basic):
+                return cur + [SPLICE(x)]
+        return None
+
+    def _stmt(self, st, env, guards, depth):
+        if isinstance(st, ast.If):
+            t, flip = self._positive(st.test)
+            c = self.cond(t, env, depth)
+            if not isinstance(c, bool) and self._known(c, guards) is not None:
+                c = self._known(c, guards)
+            if isinstance(c, bool):
+                return self.block(st.body if c != flip else st.orelse, env, guards, depth)
+            if isinstance(c, sp.Basic):
+                # undecided: both branches; the guard remembers the value tested (without the `not`s) so that a later test of it agrees
+                return self.block(st.body, env, guards + [Guard(t, not flip, c)], depth) + self.block(st.orelse, env, guards + [Guard(t, flip, c)], depth)
         if isinstance(st, (ast.For, ast.AsyncFor, ast.While)):
             env = dict(env)
             self._rebind_closures(env)
             if not isinstance(st, ast.While):
-                self._bind_loop(st, env, depth)
+                self._bind_iter(st.target, st.iter, st, env, depth)
             out = []
             for e, g, o in self.block(st.body, env, guards, depth):
                 out.append((e, g, None if isinstance(o, _Loop) else o))
@@ -183,15 +293,12 @@ class _PolyEx(Extractor):
             return [(env, guards, None)]
         if isinstance(st, ast.Expr):
             v = st.value
-            if (isinstance(v, ast.Call) and isinstance(v.func, ast.Attribute) and v.func.attr == "append" and isinstance(v.func.value, ast.Name)
-                    and isinstance(env.get(v.func.value.id), list) and len(v.args) == 1 and not v.keywords):
+            if (isinstance(v, ast.Call) and isinstance(v.func, ast.Attribute) and v.func.attr in self.LIST_METHODS and isinstance(v.func.value, ast.Name)
+                    and isinstance(env.get(v.func.value.id), list) and not v.keywords):
                 env = dict(env)
                 self._rebind_closures(env)
-                try:
-                    item = self.expr(v.args[0], env, depth)
-                except Undecided:
-                    item = self.fresh()
-                env[v.func.value.id] = list(env[v.func.value.id]) + [item]
+                new = self._list_method(v, env, depth)
+                env[v.func.value.id] = new if new is not None else self.fresh()
                 return [(env, guards, None)]
             try:
                 if isinstance(v, ast.Call) and self._effect_callee(v, env) is not None:
@@ -217,12 +324,22 @@ class _PolyEx(Extractor):
                         env[d] = self.fresh()
             return [(env, guards, None)]
 
-    def _bind_loop(self, st, env, depth):
-        tnames = [t.id for t in ast.walk(st.target) if isinstance(t, ast.Name)]
-        used = {x.slice.id for x in ast.walk(st) if isinstance(x, ast.Subscript) and dotted(x.value) in AXATTR and isinstance(x.slice, ast.Name)}
+    def _bind_iter(self, target, iterable, scope, env, depth) -> bool:
+        """bind the targets of `for target in iterable` (a loop statement or the generator of a comprehension; `scope` is the loop /
+        comprehension node) for the single symbolic iteration; True when the iteration runs over the axes of the polynomial"""
+        tnames = [t.id for t in ast.walk(target) if isinstance(t, ast.Name)]
+        used = {x.slice.id for x in ast.walk(scope) if isinstance(x, ast.Subscript) and dotted(x.value) in AXATTR and isinstance(x.slice, ast.Name)}
         ax = [t for t in tnames if t in used]
         bound: dict = {}        # targets drawing from a per-axis sequence: zip(self.basis, self.direction, ...) / enumerate(x.shape)
         counters: list = []     # enumerate counters over per-axis sequences
+
+        def element(seq):
+            """the element of the current axis of a per-axis python list (built by an earlier loop / comprehension over the axes)"""
+            if len(seq) == 1:
+                return seq[0]
+            if self.rank is not None and self.axis is not None and len(seq) == self.rank:
+                return seq[self.axis]
+            return None
 
         def pair(tgt, it) -> bool:
             """bind the loop target `tgt` to what it draws from `it`; True when `it` is a per-axis sequence"""
@@ -243,9 +360,12 @@ class _PolyEx(Extractor):
             if isinstance(tgt, ast.Name) and isinstance(it, ast.Attribute) and it.attr == "shape":
                 bound[tgt.id] = ("shape", it)
                 return True
+            if isinstance(tgt, ast.Name) and isinstance(it, ast.Name) and isinstance(env.get(it.id), list) and element(env[it.id]) is not None:
+                bound[tgt.id] = ("value", element(env[it.id]))      # a per-axis list computed before (one entry per symbolic axis)
+                return True
             return False
 
-        pair(st.target, st.iter)
+        per_axis = pair(target, iterable)
         if not ax:
             ax = counters[:1]
         self.axis_names.update(ax)
@@ -255,7 +375,9 @@ class _PolyEx(Extractor):
             else:
                 env[t] = self.fresh("elem")
         for t, v in bound.items():
-            if isinstance(v, tuple):
+            if isinstance(v, tuple) and v[0] == "value":
+                env[t] = v[1]
+            elif isinstance(v, tuple):
                 # an element of <x>.shape is the length of the axis
                 try:
                     env[t] = GETITEM(self.expr(v[1], env, depth), env[ax[0]] if len(ax) == 1 else AXIS)
@@ -263,6 +385,7 @@ class _PolyEx(Extractor):
                     pass
             else:
                 env[t] = v
+        return bool(per_axis or ax)
 
     def comprehension(self, n, env, depth):
         """a comprehension over a concrete tuple of integers (axis bookkeeping of the rank <= 4 enumeration) is evaluated"""
@@ -274,15 +397,28 @@ class _PolyEx(Extractor):
                 seq = None
             if isinstance(seq, (tuple, list)) and all(isinstance(x, sp.Integer) for x in seq):
                 out = []
-                for x in seq:
-                    e2 = dict(env)
-                    e2[g.target.id] = x
-                    conds = [self.cond(c, e2, depth) for c in g.ifs]
-                    if not all(isinstance(c, bool) for c in conds):
-                        return super().comprehension(n, env, depth)
-                    if all(conds):
-                        out.append(self.expr(n.elt, e2, depth))
+                self._nosplit += len(seq) != 1
+                try:
+                    for x in seq:
+                        e2 = dict(env)
+                        e2[g.target.id] = x
+                        conds = [self.cond(c, e2, depth) for c in g.ifs]
+                        if not all(isinstance(c, bool) for c in conds):
+                            return super().comprehension(n, env, depth)
+                        if all(conds):
+                            out.append(self.expr(n.elt, e2, depth))
+                finally:
+                    self._nosplit -= len(seq) != 1
                 return out
+        if len(n.generators) == 1 and not isinstance(n, ast.DictComp):
+            # a comprehension over the axes (zip(self.basis, ...), range(self.rank), enumerate(<per-axis list>), target indexing self.direction ...)
+            # is the loop `out = []; for ...: if filters: out.append(elt)`: one symbolic iteration, like the for statement
+            g = n.generators[0]
+            e2 = dict(env)
+            if self._bind_iter(g.target, g.iter, n, e2, depth):
+                if not all(self._choice(c, e2, depth) for c in g.ifs):
+                    return []
+                return [self.expr(n.elt, e2, depth)]
         return super().comprehension(n, env, depth)
 
     def assign(self, target, v, env):
@@ -301,6 +437,35 @@ class _PolyEx(Extractor):
 
     # ---- expressions
     def expr(self, n, env, depth=0):
+        if isinstance(n, ast.IfExp):
+            t, flip = self._positive(n.test)
+            c = self._forced[id(t)] if id(t) in self._forced else self.cond(t, env, depth)
+            if not isinstance(c, bool):
+                c = self._known(c, self._guards)
+            if isinstance(c, bool):
+                return self.expr(n.body if c != flip else n.orelse, env, depth)
+            a, b = self.expr(n.body, env, depth), self.expr(n.orelse, env, depth)
+            if _same(a, b):
+                return a
+            if all(isinstance(x, sp.Basic) and not isinstance(x, sp.logic.boolalg.BooleanAtom) for x in (a, b)):
+                return super().expr(n, env, depth)      # arms that are terms: ITE(test, a, b)
+            # arms that are not terms (labels, truth values, lists, None): a two-way branch of the enclosing statement
+            return a if self._choice(n.test, env, depth) else b
+        if isinstance(n, (ast.List, ast.Tuple)) and any(isinstance(e, ast.Starred) for e in n.elts):
+            # [a, *xs, b]: the display with xs spliced in (a python sequence is spliced element-wise, an array as SPLICE(xs))
+            out = []
+            for e in n.elts:
+                if isinstance(e, ast.Starred):
+                    v = self.expr(e.value, env, depth)
+                    if isinstance(v, (list, tuple)):
+                        out.extend(v)
+                    elif isinstance(v, sp.Basic):
+                        out.append(SPLICE(v))
+                    else:
+                        raise Undecided("starred non-term in a display")
+                else:
+                    out.append(self.expr(e, env, depth))
+            return tuple(out) if isinstance(n, ast.Tuple) else out
         if isinstance(n, ast.Attribute):
             d, base = dotted(n), dotted(n.value)
             if d is not None and d not in env and base is not None and base in env and base not in ("self", "cls", "np", "numpy"):
@@ -330,6 +495,20 @@ class _PolyEx(Extractor):
         if attr == "T":
             return TRANSPOSE(v)
         return sp.Function(f"attr_{attr}")(v)
+
+    def cond(self, test, env, depth):
+        # `<expression> is None` / `is not None` on a value that is known (a literal bound to a helper's parameter, a list, a label):
+        # terms.Extractor decides this for names only
+        if (isinstance(test, ast.Compare) and len(test.ops) == 1 and isinstance(test.ops[0], (ast.Is, ast.IsNot)) and isinstance(test.comparators[0], ast.Constant)
+                and test.comparators[0].value is None and dotted(test.left) is None):
+            try:
+                v = self.expr(test.left, env, depth)
+                known = v is None or isinstance(v, (list, tuple, Opaque)) or (isinstance(v, sp.Basic) and (v.is_number or isinstance(v, sp.logic.boolalg.BooleanAtom)))
+            except Undecided:
+                v, known = None, False
+            if known:
+                return (v is None) == isinstance(test.ops[0], ast.Is)
+        return super().cond(test, env, depth)
 
     def binop(self, op, a, b):
         a, b = self._num(a), self._num(b)
@@ -702,17 +881,9 @@ def _grid(chk: Check) -> dict:
 EXPECT = {("z", False): M - 1, ("pz", False): N - 1, ("pp", False): N - 1, ("z", True): M + 1, ("pz", True): N + 1, ("pp", True): N}
 
 
-def r16_3(chk: Check, G: dict):
-    S = chk.src
-    gi, full = G["gi"], G["full"]
-    want = {"z": (M, 1, "M"), "pz": (N, 1, "N"), "pp": (N - 1, 0, "N-1")}
-    for d, (den, first, label) in want.items():
-        got = G["nodes"].get(d)
-        ok = got is not None and got[0] is not None and sp.expand(got[0] - den) == 0 and got[1] == first
-        chk.ob("R16.3", gi.where(), f"{d} nodes are -cos(k pi/({label})), k from {first}: Gauss-Lobatto points with the end point(s) at infinity dropped", ok,
-               str(got), key=f"nodes|{d}")
-    fi = S.func(f"{PO}.integrate")
-    chk.touch(fi.name)
+def quadrature_factors(S, fi, full=None):
+    """({(direction, endpoints): decoded factor that Polynomial.integrate broadcasts onto an integrated axis}, {labels handed to changeBasis}).
+    Term level, one evaluation per combination: used by R16.3 and by C09 / C13 (the z weight is pi / M)."""
     got = {}      # (d, ep) -> decoded weighted factor
     cb = set()
     for d, ep in itertools.product(DIRS, (True, False)):
@@ -740,10 +911,25 @@ def r16_3(chk: Check, G: dict):
                     w = inner
                 ones = [a for a in w.atoms(sp.Function) if _named(a, "np.ones")]
                 if ok and len(ones) == 1 and len(ones[0].args) == 1:
-                    dec["ones"] = _sized(ones[0].args[0], full)
+                    dec["ones"] = _sized(ones[0].args[0], full) if full is not None else ones[0].args[0]
                     dec["scale"] = _msub(sp.simplify(w / ones[0]))
                     dec["half"] = sorted(half)
         got[(d, ep)] = dec
+    return got, cb
+
+
+def r16_3(chk: Check, G: dict):
+    S = chk.src
+    gi, full = G["gi"], G["full"]
+    want = {"z": (M, 1, "M"), "pz": (N, 1, "N"), "pp": (N - 1, 0, "N-1")}
+    for d, (den, first, label) in want.items():
+        got = G["nodes"].get(d)
+        ok = got is not None and got[0] is not None and sp.expand(got[0] - den) == 0 and got[1] == first
+        chk.ob("R16.3", gi.where(), f"{d} nodes are -cos(k pi/({label})), k from {first}: Gauss-Lobatto points with the end point(s) at infinity dropped", ok,
+               str(got), key=f"nodes|{d}")
+    fi = S.func(f"{PO}.integrate")
+    chk.touch(fi.name)
+    got, cb = quadrature_factors(S, fi, full)
     shown = {f"{d},{ep}": v for (d, ep), v in got.items()}
     for d, (den, first, label) in want.items():
         sc = [got[(d, ep)]["scale"] for ep in (True, False)]
